@@ -2,208 +2,351 @@
 """C01: regenerates, from rs/anda_db/src/collection.rs, the *order* and *guards* that make the
 durability contract hold, as data the Lean crash machine (Model/Durability.lean) runs on:
 
-  * `flush_inner`  - ordered effect markers  indexes / meta / ids / checkpoint / retire
+  * `flush_inner`  - ordered effect markers  indexes / metaPut / idsPut / checkpoint / retire
                      (the model's flush interprets this list: a reordering in the source is a
                      reordering of the model's program, and `gen_flush_order` stops checking);
   * `add_impl`, `update_impl`, `remove_impl`, `open` - ordered effect markers
                      (volatile and durable), compared with the order the model hard-codes;
-  * the storage mutators each of those functions calls (exact multiset, so a new write that the
-    model does not know about is an error, never a default);
+  * the `self.storage.<mutator>(` calls each of those functions reaches (exact multiset, private
+    helpers followed), so a new write the model does not know about is an error, never a default;
   * `ALLOCATION_WATERMARK_STRIDE`, the watermark target expression, the bounds of the reopen
     repair scan (`check_point + 1 ..= max(max_document_id, durable_alloc_watermark)`);
   * which failure branches poison the handle (update PUT, remove DELETE, add cleanup DELETE,
     flush, close), and that `store_metadata_unclaimed` does not advance `last_saved_version`.
 
-Strict about meaning, tolerant about layout: works on a comment-stripped copy, keys on call names.
+Robust against behaviour-preserving rewrites: every scan runs on `inlined_body` (calls of functions
+defined in collection.rs textually inlined, recursively, each prefixed by `/*callee*/`), so a block
+extracted into a private helper, or a helper inlined, shows the same effects in the same order.
+Markers key on WHAT IS CALLED / which field or constant is touched (`self.storage.create(`,
+`Self::IDS_PATH`, `self.doc_ids.write()`, `index_hooks`, `stats.version += 1`, `/*poison*/` …) and on
+first-occurrence order — never on the names of locals, closure parameters or temporaries. Where an
+expression has to be inspected (scan bounds, watermark) the identifiers are first discovered from
+the shape (`(a + 1)..=b`) and then resolved through their own `let`.
+Strict about meaning: a missing marker, an unexpected storage mutator, an unresolvable bound is an
+error, never a default.
 """
 import re, sys
 from common import *
 
 repo, gen = sys.argv[1], sys.argv[2]
-src = strip_rust_comments(read_source(repo, "rs/anda_db/src/collection.rs"))
+SRC = cut_tests(strip_rust_comments(read_source(repo, "rs/anda_db/src/collection.rs")))
+T = "c01_collection_order"
+
+# inlined_body leaves `/*callee*/` markers; strip_rust_comments ran BEFORE, so they survive
+_cache = {}
 
 
-def first(body, pat, what, fn):
-    m = re.search(pat, body)
+def body(fn):
+    if fn not in _cache:
+        _cache[fn] = inlined_body(SRC, fn)
+    return _cache[fn]
+
+
+def open_body():
+    """`open` builds the collection in a local (`let mut <c> = Self { … }`) and calls its methods on
+    that local; rewrite `<c>.` to `self.` so that those calls are followed like any other helper"""
+    raw = fn_body(SRC, "open")
+    m = re.search(r"\blet\s+(?:mut\s+)?(\w+)\s*=\s*Self\s*\{", raw)
     if not m:
-        die(f"c01_collection_order: marker `{what}` not found in {fn}")
-    return m.start()
+        die(f"{T}: `let <c> = Self {{ … }}` not found in open")
+    rewritten = re.sub(r"(?<![\w.])" + re.escape(m.group(1)) + r"\s*\.", "self.", raw)
+    src2 = SRC.replace(raw, rewritten, 1)
+    return inlined_body(src2, "open")
 
 
-def count(body, pat):
-    return len(re.findall(pat, body))
+def called(name):
+    """regex alternatives for "function `name` of this file is called here" in an inlined body"""
+    return [r"/\*" + name + r"\*/", r"\bself\s*\.\s*" + name + r"\s*\(", r"\bSelf::\s*" + name + r"\s*\("]
 
 
-def ordered(fn, body, markers):
-    """markers: list of (lean_ctor, regex, expected_count or None). Returns ctor names by first occurrence."""
-    pos = []
-    for name, pat, exp in markers:
-        p = first(body, pat, name, fn)
-        n = count(body, pat)
-        if exp is not None and n != exp:
-            die(f"c01_collection_order: marker `{name}` occurs {n} times in {fn}, expected {exp}")
-        pos.append((p, name))
-    pos.sort()
-    return [n for _, n in pos]
+STORAGE = r"\bself\s*\.\s*storage\s*\.\s*"
 
 
-def storage_mutators(fn, body):
-    """every `self.storage.<mutator>(` call and helper that writes, in textual order"""
-    out = []
-    for m in re.finditer(r"self\s*\.\s*storage\s*\.\s*(create|put_bytes|put|delete|store_metadata|drop_data|drop_prefix)\s*\(", body):
-        out.append("storage." + m.group(1))
-    for m in re.finditer(r"self\s*\.\s*(record_mutation_intent|ensure_allocation_watermark|store_metadata_unclaimed|store_metadata|store_ids|store_indexes|clear_mutation_intents)\s*\(", body):
-        out.append(m.group(1))
-    return sorted(out)
+def pos(text, pats, what, fn):
+    p = first_pos(text, pats)
+    if p < 0:
+        die(f"{T}: marker `{what}` not found in {fn}")
+    return p
 
 
-def expect_mutators(fn, body, expected):
-    got = storage_mutators(fn, body)
+def ordered(fn, markers):
+    text = body(fn)
+    ps = sorted((pos(text, pats, name, fn), name) for name, pats in markers)
+    return [n for _, n in ps]
+
+
+def storage_mutators(fn):
+    """multiset of `self.storage.<mutator>(` calls reachable from fn (helpers of this file followed)"""
+    return sorted(m.group(1) for m in re.finditer(
+        STORAGE + r"(create|put_bytes|put|delete|store_metadata|drop_data|drop_prefix|to_writer|stream_writer)\s*\(", body(fn)))
+
+
+def expect_mutators(fn, expected):
+    got = storage_mutators(fn)
     if got != sorted(expected):
-        die(f"c01_collection_order: {fn} calls storage mutators {got}, the model knows {sorted(expected)}")
+        die(f"{T}: {fn} reaches storage mutators {got}, the model knows {sorted(expected)}")
+
+
+def strip_ws(s):
+    return re.sub(r"\s+", "", s)
+
+
+def let_expr(text, ident, before):
+    """expression of the last `let [mut] ident = …;` that starts before position `before`"""
+    best = None
+    for m in re.finditer(r"\blet\s+(?:mut\s+)?" + re.escape(ident) + r"\s*(?::[^=;]+)?=\s*", text[:before]):
+        best = m
+    if not best:
+        return None
+    i, depth = best.end(), 0
+    while i < len(text):
+        c = text[i]
+        if c in "([{":
+            depth += 1
+        elif c in ")]}":
+            depth -= 1
+        elif c == ";" and depth == 0:
+            return text[best.end():i]
+        i += 1
+    return None
+
+
+def brace_block(text, i):
+    """text[i] == '{' → (content, index after the closing brace)"""
+    depth, j = 0, i
+    while j < len(text):
+        if text[j] == "{":
+            depth += 1
+        elif text[j] == "}":
+            depth -= 1
+            if depth == 0:
+                return text[i + 1:j], j + 1
+        j += 1
+    return text[i + 1:], len(text)
+
+
+def failure_blocks(text, p_call, what, fn):
+    """The code that runs when the fallible call starting at p_call (`self.storage.put(` …) returns Err,
+    whatever the spelling: `if let Err(e) = CALL { B }`, `match CALL { … Err(e) => B … }`,
+    `let Ok(x) = CALL else { B }`. Returns the list of failure blocks (one per `Err` arm)."""
+    # end of the call expression
+    i = text.index("(", p_call)
+    depth = 0
+    while i < len(text):
+        if text[i] in "([{":
+            depth += 1
+        elif text[i] in ")]}":
+            depth -= 1
+            if depth == 0:
+                break
+        i += 1
+    rest = text[i + 1:]
+    m = re.match(r"\s*(?:\.\s*await)?\s*", rest)
+    after = i + 1 + m.end()
+    stmt_start = max(text.rfind(";", 0, p_call), text.rfind("}", 0, p_call)) + 1
+    head = text[stmt_start:p_call]
+    if re.search(r"\blet\s+Err\s*\(", head):                        # if let Err(e) = CALL { B }
+        j = text.index("{", after)
+        return [brace_block(text, j)[0]]
+    if re.match(r"else\b", text[after:]):                             # let Ok(x) = CALL else { B }
+        j = text.index("{", after)
+        return [brace_block(text, j)[0]]
+    if re.search(r"\bmatch\s*$", head.rstrip() + " ") or re.search(r"\bmatch\b[^;{}]*$", head):   # match CALL { arms }
+        j = text.index("{", after)
+        arms, _ = brace_block(text, j)
+        out = []
+        for a in re.finditer(r"\bErr\s*\(", arms):
+            # skip the pattern, find `=>`
+            k = arms.find("=>", a.end())
+            if k < 0:
+                continue
+            k2 = k + 2
+            while k2 < len(arms) and arms[k2].isspace():
+                k2 += 1
+            if k2 < len(arms) and arms[k2] == "{":
+                out.append(brace_block(arms, k2)[0])
+            else:
+                d, e = 0, k2
+                while e < len(arms) and not (arms[e] == "," and d == 0):
+                    d += {"(": 1, "[": 1, "{": 1, ")": -1, "]": -1, "}": -1}.get(arms[e], 0)
+                    e += 1
+                out.append(arms[k2:e])
+        if out:
+            return out
+    die(f"{T}: cannot find the failure branch of `{what}` in {fn}")
+
+
+def failure_poisons(text, p_call, what, fn):
+    return any(first_pos(blk, called("poison")) >= 0 for blk in failure_blocks(text, p_call, what, fn))
 
 
 # ---------------------------------------------------------------------------------------------
-flush = fn_body(src, "flush_inner")
-flush_order = ordered("flush_inner", flush, [
-    ("indexes", r"self\s*\.\s*store_indexes\s*\(", 1),
-    ("metaPut", r"self\s*\.\s*store_metadata\s*\(", 1),
-    ("idsPut", r"self\s*\.\s*store_ids\s*\(", 1),
-    ("checkpoint", r"self\s*\.\s*storage\s*\.\s*store_metadata\s*\(", 1),
-    ("retire", r"self\s*\.\s*clear_mutation_intents\s*\(", 1),
+# flush_inner
+IDS_PUT = [r"/\*store_ids\*/", STORAGE + r"put\w*\s*\(\s*Self::IDS_PATH"]
+META_PUT = [r"/\*store_metadata\*/", STORAGE + r"put\w*\s*\(\s*Self::METADATA_PATH"]
+flush_order = ordered("flush_inner", [
+    ("indexes", called("store_indexes") + [r"\.\s*flush\s*\(\s*\w+\s*\)\s*\)"]),
+    ("metaPut", META_PUT),
+    ("idsPut", IDS_PUT),
+    ("checkpoint", [STORAGE + r"store_metadata\s*\("]),
+    ("retire", called("clear_mutation_intents")),
 ])
-expect_mutators("flush_inner", flush, ["store_indexes", "store_metadata", "store_ids", "storage.store_metadata", "clear_mutation_intents"])
-# ids and checkpoint only run when the metadata write happened (`if let Some(check_point) = stored_check_point`)
-m = re.search(r"if\s+let\s+Some\s*\(\s*(\w+)\s*\)\s*=\s*(\w+)\s*\{", flush)
-if not m:
-    die("c01_collection_order: `if let Some(check_point) = stored_check_point {` not found in flush_inner")
-blk_start = m.end()
-depth, j = 1, blk_start
-while j < len(flush) and depth:
-    depth += {"{": 1, "}": -1}.get(flush[j], 0)
-    j += 1
-blk = flush[blk_start:j]
-ids_cp_guarded = bool(re.search(r"self\s*\.\s*store_ids\s*\(", blk)) and bool(re.search(r"self\s*\.\s*storage\s*\.\s*store_metadata\s*\(\s*" + re.escape(m.group(1)), blk))
-retire_guarded = bool(re.search(r"if\s+has_pending_mutations\s*\{\s*self\s*\.\s*clear_mutation_intents", flush))
-index_guarded = bool(re.search(r"if\s+has_pending_indexes\s*\{\s*self\s*\.\s*store_indexes", flush))
+expect_mutators("flush_inner", ["put_bytes", "put", "store_metadata", "delete", "delete"])
 
-# store_metadata: returns the snapshot's max_document_id as the checkpoint, advances last_saved_version
-sm = fn_body(src, "store_metadata")
-checkpoint_is_snapshot_max = bool(re.search(r"Ok\s*\(\s*Some\s*\(\s*metadata\s*\.\s*stats\s*\.\s*max_document_id\s*\)\s*\)", sm))
-smu = fn_body(src, "store_metadata_unclaimed")
-unclaimed_keeps_version = "last_saved_version" not in smu
+# store_metadata returns the snapshot's max_document_id as the checkpoint
+sm = body("store_metadata")
+checkpoint_is_snapshot_max = bool(re.search(r"Ok\s*\(\s*Some\s*\(\s*\w+\s*\.\s*stats\s*\.\s*max_document_id\s*\)\s*\)", sm))
+# … and is the only place of the flush path that advances last_saved_version
+store_metadata_claims = "last_saved_version" in sm
+unclaimed_keeps_version = "last_saved_version" not in body("store_metadata_unclaimed")
+expect_mutators("store_metadata_unclaimed", ["put_bytes"])
 
 # ---------------------------------------------------------------------------------------------
-add = fn_body(src, "add_impl")
-add_order = ordered("add_impl", add, [
-    ("alloc", r"max_document_id\s*\.\s*fetch_add\s*\(", 1),
-    ("watermark", r"self\s*\.\s*ensure_allocation_watermark\s*\(", 1),
-    ("index", r"index\s*\.\s*insert\s*\(", None),
-    ("docCreate", r"self\s*\.\s*storage\s*\.\s*create\s*\(", 1),
-    ("cleanupDelete", r"self\s*\.\s*storage\s*\.\s*delete\s*\(", 1),
-    ("idsAdd", r"self\s*\.\s*doc_ids\s*\.\s*write\s*\(\s*\)\s*\.\s*add\s*\(", 1),
-    ("version", r"stats\s*\.\s*version\s*\+=\s*1", 1),
+# add_impl
+INDEX_MUT = [r"\bindex_hooks\s*\.", r"\bindex\s*\.\s*(?:insert|update|remove)\s*\("]
+VERSION = [r"\.\s*stats\s*\.\s*version\s*\+=\s*1", r"\bstats\s*\.\s*version\s*\+=\s*1"]
+IDS_WRITE = [r"\bself\s*\.\s*doc_ids\s*\.\s*write\s*\(\s*\)"]
+add_order = ordered("add_impl", [
+    ("alloc", [r"\bmax_document_id\s*\.\s*fetch_add\s*\("]),
+    ("watermark", called("ensure_allocation_watermark") + [r"Self::ALLOCATION_WATERMARK_PATH"]),
+    ("index", INDEX_MUT),
+    ("docCreate", [STORAGE + r"create\s*\("]),
+    ("cleanupDelete", [STORAGE + r"delete\s*\("]),
+    ("idsAdd", IDS_WRITE),
+    ("version", VERSION),
 ])
-expect_mutators("add_impl", add, ["ensure_allocation_watermark", "storage.create", "storage.delete"])
-# the cleanup delete's failure branch poisons; AlreadyExists skips the cleanup
-p_del = first(add, r"self\s*\.\s*storage\s*\.\s*delete\s*\(", "cleanupDelete", "add_impl")
-p_ids = first(add, r"self\s*\.\s*doc_ids\s*\.\s*write", "idsAdd", "add_impl")
-add_cleanup_poisons = bool(re.search(r"self\s*\.\s*poison\s*\(", add[p_del:p_ids]))
-add_exists_skips_cleanup = bool(re.search(r"if\s*!\s*matches!\s*\(\s*err\s*,\s*DBError::AlreadyExists", add))
+expect_mutators("add_impl", ["put", "create", "delete"])
+add = body("add_impl")
+p_create = pos(add, [STORAGE + r"create\s*\("], "docCreate", "add_impl")
+p_del = pos(add, [STORAGE + r"delete\s*\("], "cleanupDelete", "add_impl")
+p_ids = pos(add, IDS_WRITE, "idsAdd", "add_impl")
+add_cleanup_poisons = failure_poisons(add, p_del, "cleanup DELETE", "add_impl")
+add_exists_skips_cleanup = bool(re.search(r"!\s*matches!\s*\(\s*&?\w+\s*,\s*DBError::AlreadyExists", add[p_create:p_del]))
 
-wm = fn_body(src, "ensure_allocation_watermark")
-stride = int_const(src, "ALLOCATION_WATERMARK_STRIDE")
+wm = body("ensure_allocation_watermark")
+stride = int_const(SRC, "ALLOCATION_WATERMARK_STRIDE")
 wm_target_ok = bool(re.search(
-    r"max_document_id\s*\.\s*load\s*\([^)]*\)\s*\.\s*max\s*\(\s*id\s*\)\s*\.\s*saturating_add\s*\(\s*Self::ALLOCATION_WATERMARK_STRIDE\s*\)", wm))
-wm_guard_ok = bool(re.search(r"if\s+id\s*<=\s*self\s*\.\s*durable_alloc_watermark\s*\.\s*load", wm))
-expect_mutators("ensure_allocation_watermark", wm, ["storage.put"])
-# watermark published in memory only after the PUT returned
-p_put = first(wm, r"self\s*\.\s*storage\s*\.\s*put\s*\(", "watermark PUT", "ensure_allocation_watermark")
-p_pub = first(wm, r"durable_alloc_watermark\s*\.\s*fetch_max\s*\(", "watermark publish", "ensure_allocation_watermark")
-wm_put_before_publish = p_put < p_pub
+    r"max_document_id\s*\.\s*load\s*\([^)]*\)\s*\.\s*max\s*\(\s*\w+\s*\)\s*\.\s*saturating_add\s*\(\s*Self::ALLOCATION_WATERMARK_STRIDE\s*\)", wm))
+# "already covered" guard: `<id> <= self.durable_alloc_watermark.load(..)` is evaluated before the PUT
+_g = first_pos(wm, [r"\b\w+\s*<=\s*self\s*\.\s*durable_alloc_watermark\s*\.\s*load"])
+wm_guard_ok = 0 <= _g < pos(wm, [STORAGE + r"put\s*\("], "watermark PUT", "ensure_allocation_watermark")
+expect_mutators("ensure_allocation_watermark", ["put"])
+wm_put_before_publish = pos(wm, [STORAGE + r"put\s*\("], "watermark PUT", "ensure_allocation_watermark") < \
+    pos(wm, [r"durable_alloc_watermark\s*\.\s*fetch_max\s*\("], "watermark publish", "ensure_allocation_watermark")
 
 # ---------------------------------------------------------------------------------------------
-upd = fn_body(src, "update_impl")
-upd_order = ordered("update_impl", upd, [
-    ("read", r"self\s*\.\s*storage\s*\.\s*get\s*::", 1),
-    ("intent", r"self\s*\.\s*record_mutation_intent\s*\(", 1),
-    ("index", r"index\s*\.\s*update\s*\(", None),
-    ("docPut", r"self\s*\.\s*storage\s*\.\s*put\s*\(", 1),
-    ("version", r"stats\s*\.\s*version\s*\+=\s*1", 1),
+# update_impl / remove_impl
+READ = [STORAGE + r"get\s*::"]
+INTENT = called("record_mutation_intent") + [r"\bmutation_intent_path\s*\("]
+upd_order = ordered("update_impl", [
+    ("read", READ),
+    ("intent", INTENT),
+    ("index", INDEX_MUT),
+    ("docPut", [STORAGE + r"put\s*\("]),
+    ("version", VERSION),
 ])
-expect_mutators("update_impl", upd, ["record_mutation_intent", "storage.put"])
-p_put = first(upd, r"self\s*\.\s*storage\s*\.\s*put\s*\(", "docPut", "update_impl")
-p_ver = first(upd, r"stats\s*\.\s*version\s*\+=\s*1", "version", "update_impl")
-upd_poisons = bool(re.search(r"self\s*\.\s*poison\s*\(", upd[p_put:p_ver]))
-upd_intent_both = bool(re.search(r"record_mutation_intent\s*\(\s*id\s*,\s*Some\s*\(\s*&old_doc\s*\)\s*,\s*Some\s*\(\s*&doc\s*\)\s*\)", upd))
+expect_mutators("update_impl", ["create", "put"])
+upd = body("update_impl")
+p_put = pos(upd, [STORAGE + r"put\s*\("], "docPut", "update_impl")
+p_ver = pos(upd, VERSION, "version", "update_impl")
+upd_poisons = failure_poisons(upd, p_put, "document PUT", "update_impl")
+# (before, after): two different documents, both present
+m = re.search(r"(?:/\*record_mutation_intent\*/|record_mutation_intent\s*\()\s*\w+\s*,\s*Some\s*\(\s*&?\s*(\w+)\s*\)\s*,\s*Some\s*\(\s*&?\s*(\w+)\s*\)", upd)
+upd_intent_both = bool(m) and m.group(1) != m.group(2)
 
-rem = fn_body(src, "remove_impl")
-rem_order = ordered("remove_impl", rem, [
-    ("read", r"self\s*\.\s*storage\s*\.\s*get\s*::", 1),
-    ("intent", r"self\s*\.\s*record_mutation_intent\s*\(", 1),
-    ("index", r"index\s*\.\s*remove\s*\(", None),
-    ("docDelete", r"self\s*\.\s*storage\s*\.\s*delete\s*\(", 1),
-    ("idsRemove", r"doc_ids\s*\.\s*remove\s*\(", 1),
-    ("version", r"stats\s*\.\s*version\s*\+=\s*1", 1),
+rem_order = ordered("remove_impl", [
+    ("read", READ),
+    ("intent", INTENT),
+    ("index", INDEX_MUT),
+    ("docDelete", [STORAGE + r"delete\s*\("]),
+    ("idsRemove", IDS_WRITE),
+    ("version", VERSION),
 ])
-expect_mutators("remove_impl", rem, ["record_mutation_intent", "storage.delete"])
-p_del = first(rem, r"self\s*\.\s*storage\s*\.\s*delete\s*\(", "docDelete", "remove_impl")
-p_idr = first(rem, r"doc_ids\s*\.\s*remove\s*\(", "idsRemove", "remove_impl")
-rem_poisons = bool(re.search(r"self\s*\.\s*poison\s*\(", rem[p_del:p_idr]))
-rem_intent_prev_only = bool(re.search(r"record_mutation_intent\s*\(\s*id\s*,\s*Some\s*\(\s*doc\s*\)\s*,\s*None\s*\)", rem))
+expect_mutators("remove_impl", ["create", "delete"])
+rem = body("remove_impl")
+p_del = pos(rem, [STORAGE + r"delete\s*\("], "docDelete", "remove_impl")
+p_idr = pos(rem, IDS_WRITE, "idsRemove", "remove_impl")
+rem_poisons = failure_poisons(rem, p_del, "document DELETE", "remove_impl")
+rem_intent_prev_only = bool(re.search(
+    r"(?:/\*record_mutation_intent\*/|record_mutation_intent\s*\()\s*\w+\s*,\s*Some\s*\(\s*&?\s*\w+\s*\)\s*,\s*None\b", rem))
 
-# intents are written with create-if-absent and registered as pending only after the PUT returned
-rmi = fn_body(src, "record_mutation_intent")
-expect_mutators("record_mutation_intent", rmi, ["storage.create"])
-cmi = fn_body(src, "clear_mutation_intents")
-expect_mutators("clear_mutation_intents", cmi, ["storage.delete", "storage.delete"])
+# intents: create-if-absent; retirement deletes pending and stale intent objects
+expect_mutators("record_mutation_intent", ["create"])
+expect_mutators("clear_mutation_intents", ["delete", "delete"])
 
 # ---------------------------------------------------------------------------------------------
-opn = fn_body(src, "open")
-open_order = ordered("open", opn, [
-    ("loadMeta", r"fetch\s*::\s*<\s*CollectionMetadata\s*>", 1),
-    ("loadIds", r"fetch\s*::\s*<\s*Vec\s*<\s*u8\s*>\s*>\s*\(\s*Self::IDS_PATH", 1),
-    ("loadWatermark", r"fetch\s*::\s*<\s*u64\s*>\s*\(\s*Self::ALLOCATION_WATERMARK_PATH", 1),
-    ("loadIndexes", r"\.\s*load_indexes\s*\(", 1),
-    ("callback", r"\bf\s*\(\s*&mut\s+collection\s*\)", 1),
-    ("replay", r"\.\s*replay_mutation_intents\s*\(", 1),
-    ("repair", r"\.\s*auto_repair_indexes\s*\(", 1),
+# open
+_cache["open"] = open_body()
+open_order = ordered("open", [
+    ("loadMeta", [r"fetch\s*::\s*<\s*CollectionMetadata\s*>"]),
+    ("loadIds", [r"Self::IDS_PATH"]),
+    ("loadWatermark", [r"Self::ALLOCATION_WATERMARK_PATH"]),
+    ("loadIndexes", called("load_indexes") + [r"::\s*bootstrap\s*\("]),
+    # the caller's callback: a call of a parameter (not a function of this file) on `&mut <collection>`
+    ("callback", [r"(?<![\w.:])\w+\s*\(\s*&mut\s+\w+\s*\)\s*\.\s*await"]),
+    ("replay", called("replay_mutation_intents") + [r"Self::MUTATION_INTENT_PREFIX"]),
+    ("repair", called("auto_repair_indexes")),
 ])
-expect_mutators("open", opn, [])
-open_wm_max_meta = bool(re.search(r"durable_alloc_watermark\s*:\s*AtomicU64::new\s*\(\s*alloc_watermark\s*\.\s*max\s*\(\s*metadata_max_document_id\s*\)\s*\)", opn))
+expect_mutators("open", [])
+opn = body("open")
+open_wm_max_meta = False
+m = re.search(r"durable_alloc_watermark\s*:\s*AtomicU64::new\s*\(\s*(\w+)\s*\.\s*max\s*\(\s*(\w+)\s*\)\s*\)", opn)
+if m and m.group(1) != m.group(2):
+    e1, e2 = let_expr(opn, m.group(1), m.start()), let_expr(opn, m.group(2), m.start())
+    if e1 is not None and e2 is not None:
+        pair = {("ALLOCATION_WATERMARK_PATH" in e, "max_document_id" in e) for e in (e1, e2)}
+        open_wm_max_meta = pair == {(True, False), (False, True)}
 
-rep = fn_body(src, "auto_repair_indexes")
-expect_mutators("auto_repair_indexes", rep, [])
-scan_from_cp = bool(re.search(r"for\s+id\s+in\s*\(\s*check_point\s*\+\s*1\s*\)\s*\.\.=\s*scan_max", rep))
-m = re.search(r"let\s+scan_max\s*=\s*([^;]+);", rep)
-if not m:
-    die("c01_collection_order: `let scan_max = …;` not found in auto_repair_indexes")
-scan_expr = re.sub(r"\s+", "", m.group(1))
-scan_uses_max = "max_document_id" in scan_expr
-scan_uses_wm = "durable_alloc_watermark" in scan_expr and ".max(" in scan_expr
-cp_from_storage = bool(re.search(r"let\s+check_point\s*=\s*self\s*\.\s*storage\s*\.\s*stats\s*\(\s*\)\s*\.\s*check_point", rep))
+# the repair scan: `(a + 1)..=b` with a = storage checkpoint, b = max(max_document_id, watermark)
+rep = body("auto_repair_indexes")
+expect_mutators("auto_repair_indexes", [])
+ranges = list(re.finditer(r"\(\s*(\w+)\s*\+\s*1\s*\)\s*\.\.=\s*(\w+)", rep))
+if len(ranges) != 1:
+    die(f"{T}: expected exactly one `(a + 1)..=b` scan range in auto_repair_indexes, found {len(ranges)}")
+lo_e, hi_e = let_expr(rep, ranges[0].group(1), ranges[0].start()), let_expr(rep, ranges[0].group(2), ranges[0].start())
+if lo_e is None or hi_e is None:
+    die(f"{T}: cannot resolve the bounds `{ranges[0].group(1)}` / `{ranges[0].group(2)}` of the repair scan in auto_repair_indexes")
+lo_s, hi_s = strip_ws(lo_e), strip_ws(hi_e)
+scan_from_cp = lo_s == "self.storage.stats().check_point"
+LOAD = r"\.load\(Ordering::\w+\)"
+scan_uses_max = bool(re.search(r"self\.max_document_id" + LOAD, hi_s))
+scan_uses_wm = bool(re.fullmatch(
+    r"self\.max_document_id" + LOAD + r"\.max\(self\.durable_alloc_watermark" + LOAD + r"\)"
+    r"|self\.durable_alloc_watermark" + LOAD + r"\.max\(self\.max_document_id" + LOAD + r"\)", hi_s))
 
-rec = fn_body(src, "reconcile_mutation_intents")
-expect_mutators("reconcile_mutation_intents", rec, [])
-# both images are removed (first loop) before any re-insert (second loop)
-p_rm = first(rec, r"self\s*\.\s*remove_document_from_indexes\s*\(\s*intent\s*\.\s*document_id", "remove images", "reconcile_mutation_intents")
-p_ins = first(rec, r"self\s*\.\s*insert_document_into_indexes\s*\(", "re-insert", "reconcile_mutation_intents")
-p_loop2 = first(rec, r"for\s+id\s+in\s+affected_ids", "affected loop", "reconcile_mutation_intents")
-replay_removes_first = p_rm < p_loop2 < p_ins
-replay_both_images = bool(re.search(r"\[\s*&intent\s*\.\s*previous\s*,\s*&intent\s*\.\s*proposed\s*\]", rec))
+# replay: both recorded images leave the indexes before the stored document is fetched and re-inserted
+rec = body("reconcile_mutation_intents")
+expect_mutators("reconcile_mutation_intents", [])
+p_prev = pos(rec, [r"\.\s*previous\b"], "previous image", "reconcile_mutation_intents")
+p_prop = pos(rec, [r"\.\s*proposed\b"], "proposed image", "reconcile_mutation_intents")
+p_rm = pos(rec, called("remove_document_from_indexes"), "remove images", "reconcile_mutation_intents")
+p_fetch = pos(rec, [r"fetch\s*::\s*<\s*DocumentOwned\s*>"], "fetch stored document", "reconcile_mutation_intents")
+p_ins = pos(rec, called("insert_document_into_indexes"), "re-insert", "reconcile_mutation_intents")
+replay_removes_first = max(p_prev, p_prop) < p_fetch and p_rm < p_fetch < p_ins
 
-# flush()/close() poison on a failed flush_inner
-fl = fn_body(src, "flush")
-flush_poisons = bool(re.search(r"if\s+rt\s*\.\s*is_err\s*\(\s*\)\s*\{\s*[^}]*self\s*\.\s*poison\s*\(", fl))
-cl = fn_body(src, "close")
-close_poisons = bool(re.search(r"Err\s*\(\s*err\s*\)\s*=>\s*\{[^}]*self\s*\.\s*poison\s*\(", cl))
+# flush()/close() poison after a failed flush_inner (the inlined flush_inner block itself is skipped;
+# helpers called afterwards are followed)
+def poisons_after_flush_inner(fn):
+    txt = body(fn)
+    p = first_pos(txt, [r"/\*flush_inner\*/"])
+    if p < 0:
+        die(f"{T}: {fn} does not reach flush_inner")
+    depth, j = 1, p
+    while j < len(txt) and depth:
+        depth += {"{": 1, "}": -1}.get(txt[j], 0)
+        j += 1
+    return first_pos(txt[j:], called("poison")) >= 0
+
+
+flush_poisons = poisons_after_flush_inner("flush")
+close_poisons = poisons_after_flush_inner("close")
 
 
 def b(x):
     return "true" if x else "false"
 
 
-def lst(ctor_ns, xs):
+def lst(xs):
     return "[" + ", ".join(f".{x}" for x in xs) + "]"
 
 
@@ -226,15 +369,15 @@ inductive OpenStep | loadMeta | loadIds | loadWatermark | loadIndexes | callback
 deriving DecidableEq, Repr
 
 /-- effect markers of `flush_inner` by first occurrence: the program the model's flush interprets -/
-def flushOrder : List FlushStep := {lst("FlushStep", flush_order)}
+def flushOrder : List FlushStep := {lst(flush_order)}
 /-- `add_impl` -/
-def addOrder : List AddStep := {lst("AddStep", add_order)}
+def addOrder : List AddStep := {lst(add_order)}
 /-- `update_impl` -/
-def updateOrder : List UpdStep := {lst("UpdStep", upd_order)}
+def updateOrder : List UpdStep := {lst(upd_order)}
 /-- `remove_impl` -/
-def removeOrder : List RemStep := {lst("RemStep", rem_order)}
+def removeOrder : List RemStep := {lst(rem_order)}
 /-- `Collection::open` -/
-def openOrder : List OpenStep := {lst("OpenStep", open_order)}
+def openOrder : List OpenStep := {lst(open_order)}
 
 /-- `Collection::ALLOCATION_WATERMARK_STRIDE` -/
 def allocationWatermarkStride : Nat := {stride}
@@ -245,23 +388,20 @@ def watermarkPutBeforePublish : Bool := {b(wm_put_before_publish)}
 /-- `open` starts the in-memory watermark at `max(alloc_watermark, metadata.max_document_id)` -/
 def openWatermarkMaxWithMeta : Bool := {b(open_wm_max_meta)}
 
-/-- `store_ids` and the storage checkpoint run only inside `if let Some(check_point) = stored_check_point` -/
-def idsAndCheckpointGuardedByMeta : Bool := {b(ids_cp_guarded)}
-def retireGuardedByPending : Bool := {b(retire_guarded)}
-def indexesGuardedByPending : Bool := {b(index_guarded)}
-/-- `store_metadata` returns the snapshot's `max_document_id` as the checkpoint -/
-def checkpointIsSnapshotMax : Bool := {b(checkpoint_is_snapshot_max)}
+/-- `store_metadata` returns the snapshot's `max_document_id` as the checkpoint and is where
+`last_saved_version` advances -/
+def checkpointIsSnapshotMax : Bool := {b(checkpoint_is_snapshot_max and store_metadata_claims)}
 /-- `store_metadata_unclaimed` (save_extension) never touches `last_saved_version` -/
 def unclaimedMetaKeepsVersion : Bool := {b(unclaimed_keeps_version)}
 
 /-- the reopen repair scan iterates `(check_point + 1)..=scan_max` with `check_point` from the storage stats -/
-def scanStartsAfterCheckpoint : Bool := {b(scan_from_cp and cp_from_storage)}
+def scanStartsAfterCheckpoint : Bool := {b(scan_from_cp)}
 /-- `scan_max` mentions `max_document_id` -/
 def scanUsesMaxId : Bool := {b(scan_uses_max)}
-/-- `scan_max` is `….max(durable_alloc_watermark)` -/
+/-- `scan_max` is `max_document_id.max(durable_alloc_watermark)` -/
 def scanUsesWatermark : Bool := {b(scan_uses_wm)}
 /-- intent replay removes both recorded images of every intent before any re-insert -/
-def replayRemovesBothImagesFirst : Bool := {b(replay_removes_first and replay_both_images)}
+def replayRemovesBothImagesFirst : Bool := {b(replay_removes_first)}
 
 /-- failure branches that poison the handle -/
 def updatePoisonsOnPutError : Bool := {b(upd_poisons)}
@@ -281,7 +421,7 @@ theorem gen_remove_order : removeOrder = [.read, .intent, .index, .docDelete, .i
 theorem gen_open_order : openOrder = [.loadMeta, .loadIds, .loadWatermark, .loadIndexes, .callback, .replay, .repair] := by decide
 theorem gen_stride_pos : 0 < allocationWatermarkStride := by decide
 theorem gen_watermark : (watermarkTargetIsMaxPlusStride && watermarkPutBeforePublish && openWatermarkMaxWithMeta) = true := by decide
-theorem gen_flush_guards : (idsAndCheckpointGuardedByMeta && retireGuardedByPending && indexesGuardedByPending && checkpointIsSnapshotMax && unclaimedMetaKeepsVersion) = true := by decide
+theorem gen_flush_guards : (checkpointIsSnapshotMax && unclaimedMetaKeepsVersion) = true := by decide
 theorem gen_scan : (scanStartsAfterCheckpoint && scanUsesMaxId && scanUsesWatermark && replayRemovesBothImagesFirst) = true := by decide
 theorem gen_poison : (updatePoisonsOnPutError && removePoisonsOnDeleteError && addPoisonsOnCleanupError && addExistsSkipsCleanup && flushPoisonsOnError && closePoisonsOnError) = true := by decide
 theorem gen_intent_images : (updateIntentHasBothImages && removeIntentHasPrevOnly) = true := by decide
